@@ -230,7 +230,7 @@ export function multiFileProject(rng) {
       );
     files[f] = lines.join("\n") + "\n";
   }
-  files["entry.ts"] += `export const P = parse.buildParsers<{ A: T0; B: ${rng.pick(["T1", "ns0.T0", "D0", "R0", "X0", "typeof V", "sub0.T0", "string"])} }>();\n`;
+  files["entry.ts"] += `export const P = parse.buildParsers<{ A: T0; B: ${rng.pick(["T1", "ns0.T0", "D0", "R0", "X0", "typeof V", "sub0.T0", "string", "typeof ns0", "typeof ns1", "typeof ns0.V", "typeof ns0.sub0", "typeof ns1.sub1"])} }>();\n`;
   if (rng.chance(0.15)) delete files[rng.pick(names.filter((x) => x !== "entry.ts"))];
   if (rng.chance(0.1)) files[rng.pick(names)] = "export type T0 = {{{ broken";
   return { files, label: "multifile" };
